@@ -1185,8 +1185,12 @@ impl RepDefUnraveler {
         levels_to_rep.push(0);
         for meaning in def_meaning.as_ref() {
             match meaning {
-                DefinitionInterpretation::AllValidItem | DefinitionInterpretation::AllValidList => {
+                DefinitionInterpretation::AllValidItem => {
                     // There is no corresponding level, so nothing to put in levels_to_rep
+                }
+                DefinitionInterpretation::AllValidList => {
+                    // There is no corresponding level, but it is still a level of repetition
+                    rep_counter += 1;
                 }
                 DefinitionInterpretation::NullableItem => {
                     // Some null structs are not visible at inner rep levels in cases like LIST<STRUCT<LIST<...>>>
@@ -1274,7 +1278,9 @@ impl RepDefUnraveler {
         // This is the highest def level that is still visible.  Once we hit a list then
         // we stop looking because any null / empty list (or list masked by a higher level
         // null) will not be visible
-        let mut max_level = null_level.max(empty_level);
+        // Levels up to `valid_level` belong to inner layers (e.g. null items) and are always
+        // visible here, even when this list has no definition level of its own.
+        let mut max_level = null_level.max(empty_level).max(valid_level);
         // Anything higher than this (but less than max_level) is a null struct masking our
         // list.  We will materialize this is a null list.
         let upper_null = max_level;
